@@ -118,7 +118,7 @@ func impl(in hv.Val) hv.Val {
 	cli, srv := net.Pipe()
 	defer cli.Close()
 	go (&bfe_http2.Server{}).ServeConn(srv, &bfe_http2.ServeConnOpts{
-		BaseConfig: &bfe_http.Server{ReadTimeout: 10 * time.Second, WriteTimeout: 10 * time.Second},
+		BaseConfig: &bfe_http.Server{ReadTimeout: 120 * time.Second, WriteTimeout: 120 * time.Second},
 		Handler:    h,
 	})
 
@@ -210,20 +210,20 @@ func impl(in hv.Val) hv.Val {
 	enc.WriteField(hpack.HeaderField{Name: ":authority", Value: "verif.test"})
 	enc.WriteField(hpack.HeaderField{Name: ":path", Value: "/"})
 	cfr.WriteHeaders(bfe_http2.HeadersFrameParam{StreamID: 1, BlockFragment: hb.Bytes(), EndStream: !open, EndHeaders: true})
-	cli.SetWriteDeadline(time.Now().Add(5 * time.Second))
+	cli.SetWriteDeadline(time.Now().Add(30 * time.Second))
 	if _, err := cli.Write(wbuf.Bytes()); err != nil {
 		return hv.Err(1)
 	}
 
 	select {
 	case <-returned:
-	case <-time.After(5 * time.Second):
+	case <-time.After(30 * time.Second):
 		return hv.Timeout()
 	}
 	streamClosed := true
 	select {
 	case <-closed:
-	case <-time.After(1500 * time.Millisecond):
+	case <-time.After(10 * time.Second):
 		streamClosed = false
 	}
 	// barrier: everything the server wrote before the PING ack has been read
@@ -235,7 +235,7 @@ func impl(in hv.Val) hv.Val {
 	case <-pong:
 	case <-rdone: // the reader gave up (protocol error, e.g. a header block without END_HEADERS): report what it has
 		readerDone = true
-	case <-time.After(2 * time.Second):
+	case <-time.After(30 * time.Second):
 		return hv.Err(2)
 	}
 	cli.Close()
@@ -630,5 +630,5 @@ func gen(r *hv.Rng, i int, tier string) (string, hv.Val) {
 }
 
 func main() {
-	hv.Main(&hv.Spec{Prop: "C38", Gen: gen, Impl: impl, NQuick: 2500, NThorough: 120000, Deadline: 20 * time.Second})
+	hv.Main(&hv.Spec{Prop: "C38", Gen: gen, Impl: impl, NQuick: 2500, NThorough: 120000, Deadline: 120 * time.Second})
 }
